@@ -197,6 +197,8 @@ def _normalize(self):
             p = f.params()[0]
             out = []
             for s in f.node.body:
+                if isinstance(s, ast.Expr) and isinstance(s.value, ast.Constant):
+                    continue        # docstring
                 if isinstance(s, ast.Return):
                     if ast.unparse(s.value) != p:
                         raise AnalysisError(RULE, "%s does not return its rewritten argument" % fkey)
